@@ -225,6 +225,9 @@ def _walk_imports(tree):
 
 def func_own_nodes(fn: "FuncInfo", into_lambda: bool = False) -> Iterator[ast.AST]:
     for st in fn.body:
+        if isinstance(st, (ast.FunctionDef, ast.AsyncFunctionDef, ast.ClassDef)):
+            yield st          # a nested definition: binds a name, body runs later
+            continue
         for n in own_nodes(st, into_lambda=into_lambda):
             yield n
 
